@@ -39,6 +39,9 @@ struct Prog {
     /// run may then dispatch instructions the unlimited run did not (the fallback path)
     #[serde(default)]
     swallow: bool,
+    /// install a custom formatter that calls the macro `fm` for the value "FMT"
+    #[serde(default)]
+    reenter_formatter: bool,
 }
 
 #[derive(Default)]
@@ -193,6 +196,58 @@ fn cmacro(state: &mut State, name: String) -> Result<Value, Error> {
     state.call_macro(&name, &[]).map(Value::from)
 }
 
+/// test `x is t_macro('m')` / `xs|select('t_macro', 'm')`: a Rust test that re-enters the VM
+fn t_macro(state: &mut State, v: Value, name: String) -> Result<bool, Error> {
+    state.call_macro(&name, &[v]).map(|s| !s.is_empty())
+}
+
+fn t_block(state: &mut State, _v: Value, name: String) -> Result<bool, Error> {
+    state.render_block(&name).map(|s| !s.is_empty())
+}
+
+/// filter `x|f_macro('m')` / `xs|map('f_macro', 'm')`: a Rust filter that re-enters the VM
+fn f_macro(state: &mut State, v: Value, name: String) -> Result<String, Error> {
+    state.call_macro(&name, &[v])
+}
+
+fn f_block(state: &mut State, v: Value, name: String) -> Result<String, Error> {
+    state.render_block(&name).map(|s| format!("{}{}", v, s))
+}
+
+/// `{{ af('f_macro', 1, 'm') }}`: `State::apply_filter` from a Rust function
+fn af(state: &mut State, filter: String, v: Value, arg: Value) -> Result<Value, Error> {
+    state.apply_filter(&filter, &[v, arg])
+}
+
+fn af3(state: &mut State, filter: String, v: Value, a: Value, b: Value) -> Result<Value, Error> {
+    state.apply_filter(&filter, &[v, a, b])
+}
+
+/// `{{ pt('t_macro', 1, 'm') }}`: `State::perform_test` from a Rust function
+fn pt(state: &mut State, test: String, v: Value, arg: Value) -> Result<bool, Error> {
+    state.perform_test(&test, &[v, arg])
+}
+
+/// `{{ obj('m') }}` / `{{ obj.run('m') }}`: an object whose call and method re-enter the VM
+#[derive(Debug)]
+struct ReObj;
+
+impl minijinja::value::Object for ReObj {
+    fn call(self: &std::sync::Arc<Self>, state: &mut State<'_, '_>, args: &[Value]) -> Result<Value, Error> {
+        let name = args.first().and_then(|v| v.as_str()).unwrap_or("m").to_string();
+        state.call_macro(&name, &[Value::from(1)]).map(Value::from)
+    }
+
+    fn call_method(self: &std::sync::Arc<Self>, state: &mut State<'_, '_>, method: &str, args: &[Value]) -> Result<Value, Error> {
+        if method == "run" {
+            let name = args.first().and_then(|v| v.as_str()).unwrap_or("m").to_string();
+            state.call_macro(&name, &[Value::from(2)]).map(Value::from)
+        } else {
+            Err(Error::from(minijinja::ErrorKind::UnknownMethod))
+        }
+    }
+}
+
 #[derive(Clone, PartialEq, Debug)]
 enum Outcome {
     /// output, Debug form of the `Captured` (contains the state)
@@ -259,6 +314,24 @@ fn build_env_variant(prog: &Prog, variant: &str) -> Result<Environment<'static>,
     env.add_function("apply", apply);
     env.add_function("rblock", rblock);
     env.add_function("cmacro", cmacro);
+    env.add_test("t_macro", t_macro);
+    env.add_test("t_block", t_block);
+    env.add_filter("f_macro", f_macro);
+    env.add_filter("f_block", f_block);
+    env.add_function("af", af);
+    env.add_function("pt", pt);
+    env.add_function("af3", af3);
+    env.add_global("obj", Value::from_object(ReObj));
+    if prog.reenter_formatter {
+        // a formatter that re-enters the VM for one marker value
+        env.set_formatter(|out, state, value| {
+            if value.as_str() == Some("FMT") {
+                let s = state.call_macro("fm", &[])?;
+                return minijinja::escape_formatter(out, state, &Value::from(s));
+            }
+            minijinja::escape_formatter(out, state, value)
+        });
+    }
     env.add_function("dbgstate", dbgstate);
     env.add_function("dbgenv", dbgenv);
     env.add_function("try_macro", try_macro);
@@ -811,6 +884,7 @@ fn prog(id: &str, group: &str, k: i64, tpls: &[(&str, String)]) -> Prog {
         templates: tpls.iter().map(|(n, s)| (n.to_string(), s.clone())).collect(),
         ctx: default_ctx(),
         swallow: false,
+        reenter_formatter: false,
     }
 }
 
@@ -1027,6 +1101,51 @@ fn observer_programs(v: &mut Vec<Prog>) {
                                                  ("base", "{% block a %}\n{{ nofn() }}{% endblock %}".to_string())]));
 }
 
+/// nested evaluations reached through builtins that call user tests/filters per item, through
+/// `State::apply_filter`/`perform_test`, object calls/methods and a re-entering formatter
+fn reenter_programs(v: &mut Vec<Prog>) {
+    let forms: [(&str, &str); 16] = [
+        ("select", "xs|select('t_macro', 'm')|list"), ("reject", "xs|reject('t_macro', 'm')|list"),
+        ("selectattr", "items|selectattr('a', 't_macro', 'm')|map(attribute='a')|list"),
+        ("rejectattr", "items|rejectattr('a', 't_macro', 'm')|list|length"),
+        ("select-block", "xs|select('t_block', 'a')|list"), ("is-test", "(1 is t_macro('m'))"), ("is-test-block", "(1 is t_block('a'))"),
+        ("map-filter", "xs|map('f_macro', 'm')|join('-')"), ("map-filter-block", "xs|map('f_block', 'a')|join('-')"),
+        ("filter", "1|f_macro('m')"), ("apply_filter", "af('f_macro', 1, 'm')"), ("perform_test", "pt('t_macro', 1, 'm')"),
+        ("apply_filter-builtin-select", "af3('select', xs, 't_macro', 'm')|list|length"),
+        ("object-call", "obj('m')"), ("object-method", "obj.run('m')"), ("select-in-map", "[xs, xs]|map('select', 't_macro', 'm')|map('list')|list"),
+    ];
+    for k in 0..=3 {
+        let w = work(k);
+        let defs = format!("{{% macro m(x=0) %}}n{{{{ x }}}}{w}{{{{ probe() }}}}{{% endmacro %}}{{% block a %}}a{w}{{{{ probe() }}}}{{% endblock %}}|");
+        for (fname, e) in forms {
+            let pos: Vec<(&str, String)> = vec![
+                ("emit", format!("{{{{ {e} }}}}")), ("set", format!("{{% set x = {e} %}}{{{{ x }}}}")),
+                ("if", format!("{{% if {e} %}}y{{% else %}}n{{% endif %}}")),
+                ("setblock", format!("{{% set x %}}{{{{ {e} }}}}{{% endset %}}{{{{ x }}}}")),
+                ("loop", format!("{{% for q in [{e}] %}}{{{{ q }}}}{{% endfor %}}")),
+            ];
+            for (pname, p) in pos {
+                v.push(prog(&format!("reenter:{}:{}:{}", fname, pname, k), &format!("reenter-{}-{}", fname, pname), k,
+                            &[("main", format!("{defs}{p}{{{{ probe() }}}}"))]));
+            }
+        }
+        v.push(prog(&format!("reenter:filterblock:plain:{}", k), "reenter-filterblock", k,
+                    &[("main", format!("{defs}{{% filter f_macro('m') %}}x{{% endfilter %}}{{{{ probe() }}}}"))]));
+        v.push(prog(&format!("reenter:for-select:plain:{}", k), "reenter-for-select", k,
+                    &[("main", format!("{defs}{{% for q in xs|select('t_macro', 'm') %}}{{{{ q }}}}{{% endfor %}}{{{{ probe() }}}}"))]));
+        v.push(prog(&format!("reenter:select-in-include:plain:{}", k), "reenter-select-in-include", k,
+                    &[("main", "{% include 'inc' %}{{ probe() }}".to_string()),
+                      ("inc", format!("{defs}{{{{ xs|select('t_macro', 'm')|list }}}}"))]));
+        v.push(prog(&format!("reenter:select-in-super:plain:{}", k), "reenter-select-in-super", k,
+                    &[("main", "{% extends 'base' %}{% block b %}[{{ super()|upper }}]{% endblock %}".to_string()),
+                      ("base", format!("{{% macro m(x=0) %}}n{w}{{% endmacro %}}<{{% block b %}}{{{{ xs|reject('t_macro', 'm')|list }}}}{{% endblock %}}>{{{{ probe() }}}}"))]));
+        let mut pf = prog(&format!("reenter:formatter:plain:{}", k), "reenter-formatter", k,
+                          &[("main", format!("{{% macro fm() %}}f{w}{{{{ probe() }}}}{{% endmacro %}}a{{{{ 'FMT' }}}}b{{{{ 'FMT'|upper }}}}{{{{ 'FMT' }}}}{{{{ probe() }}}}"))]);
+        pf.reenter_formatter = true;
+        v.push(pf);
+    }
+}
+
 fn fixed_programs(thorough: bool) -> Vec<Prog> {
     let mut v = vec![];
     // A. straight-line
@@ -1157,6 +1276,7 @@ fn fixed_programs(thorough: bool) -> Vec<Prog> {
     edge_programs(&mut v);
     swallow_programs(&mut v);
     observer_programs(&mut v);
+    reenter_programs(&mut v);
     // G. renders that fail without fuel as well
     let failing = [
         "A{{ 1 }}{{ nofn() }}B", "{% for x in range(3) %}{{ x }}{% if x == 1 %}{{ 1 // 0 }}{% endif %}{% endfor %}",
@@ -1302,7 +1422,7 @@ fn random_program(rng: &mut Rng, idx: usize) -> Prog {
     let mut all = vec![("main".to_string(), main)];
     all.extend(tpls);
     all.extend(incs);
-    let mut p = Prog { id: format!("random:{}", idx), group: String::new(), k: 0, mode: "template".into(), templates: all, ctx: default_ctx(), swallow: false };
+    let mut p = Prog { id: format!("random:{}", idx), group: String::new(), k: 0, mode: "template".into(), templates: all, ctx: default_ctx(), swallow: false, reenter_formatter: false };
     p.ctx["n"] = json!(rng.below(4));
     p.ctx["c"] = json!(rng.chance(1, 2));
     p
